@@ -387,7 +387,13 @@ class Gen:
             return kind
         m = re.fullmatch(r'(-?)(0[xX][0-9a-fA-F]+|\d+)[uU]?', tok)
         if m:
-            v = int(m.group(2), 0)
+            t = m.group(2)
+            if re.fullmatch(r'0[0-9]+', t):
+                if not re.fullmatch(r'0[0-7]+', t):
+                    raise Unsupported('line %d: not a PTX integer literal: %s' % (st.line, tok))
+                v = int(t, 8) # PTX, like C, reads a leading 0 as octal
+            else:
+                v = int(t, 0)
             return ('imm', -v if m.group(1) else v)
         raise Unsupported('line %d: operand form not modelled: %s' % (st.line, tok))
 
